@@ -578,8 +578,21 @@ func checkMain(args []string) int {
 			confirmed = ok
 			detail = "go test -race: " + out
 		} else if noReplay {
+			// passing paths of this run cannot be replayed natively (a forced schedule would park a
+			// goroutine inside a real mutex); a violating schedule is still tried, and reported either way
 			confirmed = true
 			detail = "not natively replayable (see level_note)"
+			replayTimeout = "90s"
+			os.Setenv("VERIF_REPEAT", "5")
+			outs, err := nativeReplay(&spec, g.Pkg, []*Replay{rp}, overlay)
+			os.Unsetenv("VERIF_REPEAT")
+			replayTimeout = "20m"
+			if err == nil {
+				o := outs[0]
+				detail = fmt.Sprintf("native attempt under the forced schedule: failed=%v panics=%v crash=%q", o.Failed, o.Panics, o.Crash)
+			} else {
+				detail = "native attempt under the forced schedule did not finish (schedule not enforceable around a real mutex): " + firstLine(err.Error(), 100)
+			}
 		} else {
 			os.Setenv("VERIF_REPEAT", "25") // code that runs goroutines natively may need several tries
 			outs, err := nativeReplay(&spec, g.Pkg, []*Replay{rp}, overlay)
@@ -762,6 +775,8 @@ type Outcome struct {
 	Covers     []string `json:"covers"`
 }
 
+var replayTimeout = "20m"
+
 func nativeReplay(spec *Spec, pkg string, reps []*Replay, overlay map[string]string) ([]*Outcome, error) {
 	dir, err := os.MkdirTemp("", "symgo-replay-")
 	if err != nil {
@@ -773,7 +788,7 @@ func nativeReplay(spec *Spec, pkg string, reps []*Replay, overlay map[string]str
 	b, _ := json.Marshal(map[string]interface{}{"replays": reps})
 	os.WriteFile(in, b, 0o644)
 	rel := "./" + strings.TrimPrefix(pkg, "verifharness/")
-	args := []string{"test", "-vet=off", "-count=1", "-run", "^TestReplay$", "-timeout", "20m"}
+	args := []string{"test", "-vet=off", "-count=1", "-run", "^TestReplay$", "-timeout", replayTimeout}
 	if len(spec.Tags) > 0 {
 		args = append(args, "-tags="+strings.Join(spec.Tags, ","))
 	}
@@ -824,7 +839,7 @@ func nativeRace(spec *Spec, pkg string, rep *Replay, overlay map[string]string, 
 	b, _ := json.Marshal(map[string]interface{}{"replays": []*Replay{rep}})
 	os.WriteFile(in, b, 0o644)
 	rel := "./" + strings.TrimPrefix(pkg, "verifharness/")
-	args := []string{"test", "-race", "-vet=off", "-count=1", "-run", "^TestReplay$", "-timeout", "20m"}
+	args := []string{"test", "-race", "-vet=off", "-count=1", "-run", "^TestReplay$", "-timeout", replayTimeout}
 	if len(spec.Tags) > 0 {
 		args = append(args, "-tags="+strings.Join(spec.Tags, ","))
 	}
